@@ -1,5 +1,6 @@
 import Pike.Props.C02
 import Pike.Facts
+import Pike.Spec.Skeleton
 /-
 C10 — store failures degrade to memory-only caching, never to client errors.
 In `Sys` every store call carries its outcome as an event parameter (`get t so`, `saved t ok`,
@@ -9,6 +10,25 @@ faults: errors, missing keys, arbitrary (garbled) records, lost writes and delet
 namespace Pike
 namespace C10
 open Sys Entry
+
+/-- Obligation on the regenerated statement skeletons of the three store back ends (store/redis.go, mongo.go,
+badger.go): Get, Set and Delete of each address a record by THE SAME function of the key (redis: prefix + key in all
+three; mongo: `Key = string(key)` in all three; badger: the key itself, Delete removing that one key), a miss is reported
+as `ErrNotFound`, and a value is copied out before the transaction ends.  This is what lets `StoreMap` / `Sys.store`
+treat a store as one partial map; the `store` suite checks it against real badger stores, redis and mongo cannot be
+run in the sandbox, so for them this obligation is the tie. -/
+theorem store_backends_transcribed :
+    Facts.skel_redisStore_getKey = Spec.Skeleton.redisStore_getKey
+    ∧ Facts.skel_redisStore_Get = Spec.Skeleton.redisStore_Get
+    ∧ Facts.skel_redisStore_Set = Spec.Skeleton.redisStore_Set
+    ∧ Facts.skel_redisStore_Delete = Spec.Skeleton.redisStore_Delete
+    ∧ Facts.skel_mongoStore_Get = Spec.Skeleton.mongoStore_Get
+    ∧ Facts.skel_mongoStore_Set = Spec.Skeleton.mongoStore_Set
+    ∧ Facts.skel_mongoStore_Delete = Spec.Skeleton.mongoStore_Delete
+    ∧ Facts.skel_badgerStore_Get = Spec.Skeleton.badgerStore_Get
+    ∧ Facts.skel_badgerStore_Set = Spec.Skeleton.badgerStore_Set
+    ∧ Facts.skel_badgerStore_Delete = Spec.Skeleton.badgerStore_Delete := by
+  refine ⟨?_, ?_, ?_, ?_, ?_, ?_, ?_, ?_, ?_, ?_⟩ <;> rfl
 
 /-- Obligation on the extracted facts (store/*.go): every store constructor returns the interface type
 `Store`, so a store that fails to open yields a nil interface and `NewDispatcher` falls back to
